@@ -1,10 +1,95 @@
-//! C05 — not implemented yet.
-use crate::ctx::Ctx;
+//! C05 — per-key and global combines equal a fold, once per key, and always terminate.
+//!
+//! Classic / lifted / global entry points, built-in and user combiners, fan-out in
+//! {None, 0, 1, 2, 3, parts, parts+1, 64}, empty inputs, every partition count, plus the derived
+//! distinct / distinct_per_key / top_k_per_key. Runs execute under a 20 s watchdog (a fan-in loop either
+//! finishes in microseconds or never). Oracle (independent of the model): the plain-vector reference fold.
 
-pub fn run(cx: &mut Ctx) {
-    cx.notes.push("C05: harness not implemented".to_string());
-}
+use crate::ctx::Ctx;
+use crate::pipe::*;
 
 pub fn child(_args: &[String]) -> i32 {
     2
+}
+
+fn combs(total: bool) -> Vec<Comb> {
+    let mut v = vec![Comb::Count, Comb::Sum, Comb::MinT, Comb::MaxT, Comb::Dset, Comb::Topk(0), Comb::Topk(2)];
+    if !total { v.push(Comb::Min); v.push(Comb::Max); }
+    v
+}
+
+pub fn run(cx: &mut Ctx) {
+    let o = CheckOpts { par_vs_seq: true, vs_reference: true };
+    // corpus: the two defects fixed in this round
+    for fo in [Some(0), Some(1)] {
+        let p = Prog { shape: Shape::T, src: (1..=4).map(V::I).collect(), steps: vec![Step::CombineGlobally(Comb::Sum, fo)] };
+        check_prog(cx, &p, &[Mode::Seq, Mode::Par(2), Mode::Par(4)], &o);
+    }
+    let p = Prog { shape: Shape::KG, src: vec![V::pair(V::I(0), V::L(vec![V::I(1)])), V::pair(V::I(0), V::L(vec![V::I(2)]))], steps: vec![Step::CombineValuesLifted(Comb::Sum)] };
+    check_prog(cx, &p, &[Mode::Seq, Mode::Par(2)], &o);
+
+    // exhaustive small scope: inputs 0..=5 rows x every combiner x every fan-out x partitions 1..6
+    let fanouts = [None, Some(0), Some(1), Some(2), Some(3), Some(7)];
+    let maxn = cx.budget(5, 7);
+    let mut n_ex = 0;
+    for n in 0..=maxn {
+        let src: Vec<V> = (0..n as i64).map(|i| V::I((i * 7 + 3) % 5)).collect();
+        for c in combs(true) {
+            for fo in fanouts {
+                for lifted in [false, true] {
+                    let step = if lifted { Step::CombineGloballyLifted(c.clone(), fo) } else { Step::CombineGlobally(c.clone(), fo) };
+                    let p = Prog { shape: Shape::T, src: src.clone(), steps: vec![step] };
+                    let modes: Vec<Mode> = std::iter::once(Mode::Seq).chain((1..=(n + 1).min(6)).map(Mode::Par)).collect();
+                    check_prog(cx, &p, &modes, &o);
+                    n_ex += 1;
+                }
+            }
+        }
+        let ksrc: Vec<V> = (0..n as i64).map(|i| V::pair(V::I(i % 2), V::I((i * 7 + 3) % 5))).collect();
+        for c in combs(false) {
+            let p = Prog { shape: Shape::KV, src: ksrc.clone(), steps: vec![Step::CombineValues(c.clone())] };
+            let modes: Vec<Mode> = std::iter::once(Mode::Seq).chain((1..=(n + 1).min(6)).map(Mode::Par)).collect();
+            check_prog(cx, &p, &modes, &o);
+            n_ex += 1;
+        }
+        for c in combs(true) {
+            let p = Prog { shape: Shape::KV, src: ksrc.clone(), steps: vec![Step::Gbk, Step::CombineValuesLifted(c.clone())] };
+            check_prog(cx, &p, &[Mode::Seq, Mode::Par(2), Mode::Par(3)], &o);
+            n_ex += 1;
+        }
+    }
+    cx.exhaustive_blocks.push(format!("inputs of 0..={maxn} rows x all combiners x fan-out {{None,0,1,2,3,7}} x classic/lifted x seq + par 1..min(n+1,6) ({n_ex} programs)"));
+
+    // random: a reorder-inert prefix, then a combine entry point (classic / lifted on raw grouped input with
+    // repeated keys / global / derived), then maybe a suffix
+    let rounds = cx.budget(350, 8000);
+    let mut done = 0;
+    while done < rounds {
+        let target = *cx.rng.pick(&[Shape::T, Shape::KV, Shape::KV, Shape::KG]);
+        let opts = GenOpts { max_steps: 4, max_rows: cx.budget(30, 150), barriers: target == Shape::KG || done % 4 == 0, joins: false, globals: false, nonlocal_batches: false };
+        let mut p = if target == Shape::KG && cx.rng.chance(1, 2) {
+            // raw grouped input: a key may repeat
+            Prog { shape: Shape::KG, src: gen_rows(&mut cx.rng, Shape::KG, opts.max_rows.min(12)), steps: vec![] }
+        } else {
+            gen_prog_to(&mut cx.rng, &opts, target, 0)
+        };
+        if !reorder_inert(&p) { continue; }
+        let parts = 1 + cx.rng.below(6);
+        let sh = p.steps.iter().fold(Some(p.shape), |s, st| s.and_then(|s| shape_after(s, st)));
+        let step = match sh {
+            Some(Shape::T) => match cx.rng.below(4) {
+                0 => Step::Distinct,
+                1 => Step::CombineGloballyLifted(gen_comb(&mut cx.rng, true), gen_fanout(&mut cx.rng, parts)),
+                _ => Step::CombineGlobally(gen_comb(&mut cx.rng, true), gen_fanout(&mut cx.rng, parts)),
+            },
+            Some(Shape::KV) => match cx.rng.below(5) { 0 => Step::DistinctPerKey, 1 => Step::TopKPerKey(cx.rng.below(4)), _ => Step::CombineValues(gen_comb(&mut cx.rng, false)) },
+            Some(Shape::KG) => Step::CombineValuesLifted(gen_comb(&mut cx.rng, true)),
+            None => continue,
+        };
+        p.steps.push(step);
+        let choices = partition_choices(p.src.len());
+        let modes = vec![Mode::Seq, Mode::Par(parts), Mode::Par(*cx.rng.pick(&choices))];
+        check_prog(cx, &p, &modes, &o);
+        done += 1;
+    }
 }
